@@ -343,3 +343,22 @@ def return_text(fn: ast.FunctionDef | None) -> str | None:
             return node
 
     return unparse(Sub().visit(ast.parse(unparse(body[-1])).body[0]))
+
+
+def resolve_helper_expr(node, mf):
+    """an expression that is a call `helper(a, b)` of a module-level function of the same module whose body is one return: the returned expression with the
+    helper's parameters replaced by the argument expressions (one level); any other expression is returned unchanged"""
+    import copy
+    if not (isinstance(node, ast.Call) and isinstance(node.func, ast.Name) and node.func.id in mf.functions and not node.keywords):
+        return node
+    h = mf.functions[node.func.id]
+    body = [st for st in h.body if not (isinstance(st, ast.Expr) and isinstance(st.value, ast.Constant))]
+    if len(body) != 1 or not isinstance(body[0], ast.Return) or body[0].value is None or len(h.args.args) != len(node.args):
+        return node
+    ren = {p.arg: a for p, a in zip(h.args.args, node.args)}
+
+    class Ren(ast.NodeTransformer):
+        def visit_Name(self, n):
+            return copy.deepcopy(ren[n.id]) if n.id in ren else n
+
+    return Ren().visit(copy.deepcopy(body[0].value))
